@@ -88,6 +88,10 @@ type Registry struct {
 	Pre func(req *http.Request, rec *ReqRecord) (*http.Response, error)
 	// Post may alter the model's response (single-field corruptions).
 	Post func(req *http.Request, resp *http.Response) *http.Response
+	// Begin/End bracket every request (from before the request body is read until
+	// the response is handed back): in-flight gauges.
+	Begin func(req *http.Request)
+	End   func(req *http.Request)
 	// Catalog lists extra repository names for _catalog.
 	Catalog []string
 	// PadJSON > 0: listing documents are padded (with a leading "pad" member) to
@@ -221,7 +225,14 @@ func (r *Registry) RoundTrip(req *http.Request) (*http.Response, error) {
 	rec.BodyRead = &n
 	r.Log = append(r.Log, rec)
 	pre := r.Pre
+	begin, end := r.Begin, r.End
 	r.mu.Unlock()
+	if begin != nil {
+		begin(req)
+	}
+	if end != nil {
+		defer end(req)
+	}
 
 	// read the request body completely (as a server would)
 	if req.Body != nil && req.Body != http.NoBody {
@@ -394,7 +405,7 @@ func (r *Registry) uploadStart(req *http.Request, rec *ReqRecord, name string) *
 			}
 		}
 	}
-	id := fmt.Sprintf("up%d", r.seq)
+	id := fmt.Sprintf("up%d", rec.Seq)
 	r.uploads[id] = name
 	loc := "/v2/" + name + "/blobs/uploads/" + id
 	if r.P.LocationQuery {
